@@ -430,43 +430,110 @@ example : materialize (some [.sym "N", .known 2, .known 3]) false = some [-1, 2,
 
 /-! ## `Abs` of a shape value, and the symbolic sums created by `add` -/
 
-/-- `abs` evaluator: every entry that is an `int` is checked, every symbolic entry is *assumed*
-non-negative.  For entries that are symbols of the model (bound to naturals) that is right: -/
-theorem abs_shape_identity_partial (s : Shape) (h : evalAbs (some s) = true) (hu : hasUnknown s = false)
-    (σ : String → Nat) (l : List Int) (hs : Admits σ s l) : ∀ v ∈ l, 0 ≤ v := by
+/-- `abs` evaluator: every entry that is an `int` is checked, every symbolic entry is *assumed* non-negative.
+That is right for every binding: named symbols are bound to naturals, and unnamed entries are non-negative
+(`UnnamedNonneg`, an invariant established by `Shape` and preserved by `Gather`/`Concat` — theorems below; `add`
+never creates an unnamed entry).  The earlier `_partial` version required "no unnamed entry at all". -/
+theorem abs_shape_identity (s : Shape) (h : evalAbs (some s) = true)
+    (σ : String → Nat) (l : List Int) (hs : Admits σ s l) (hu : UnnamedNonneg s l) : ∀ v ∈ l, 0 ≤ v := by
   simp only [evalAbs, Bool.not_eq_true'] at h
-  have key : ∀ (s : Shape) (l : List Int), Admits σ s l → ∀ v ∈ l, ∃ d ∈ s, d.Admits σ v := by
-    intro s
-    induction s with
-    | nil => intro l hs v hv; cases l with
-      | nil => simp only [List.not_mem_nil] at hv
-      | cons _ _ => simp only [Admits] at hs
-    | cons d s ih =>
-      intro l hs v hv
-      cases l with
-      | nil => simp only [List.not_mem_nil] at hv
-      | cons w l =>
-        simp only [Admits] at hs
-        simp only [List.mem_cons] at hv
-        rcases hv with rfl | hv
-        · exact ⟨d, List.mem_cons_self .., hs.1⟩
-        · obtain ⟨d', hd', ha'⟩ := ih l hs.2 v hv
-          exact ⟨d', List.mem_cons_of_mem _ hd', ha'⟩
+  induction s generalizing l with
+  | nil => cases l with
+    | nil => intro v hv; simp only [List.not_mem_nil] at hv
+    | cons _ _ => simp only [Admits] at hs
+  | cons d s ih =>
+    cases l with
+    | nil => simp only [Admits] at hs
+    | cons w l =>
+      simp only [Admits] at hs
+      simp only [UnnamedNonneg] at hu
+      simp only [List.any_cons, Bool.or_eq_false_iff] at h
+      intro v hv
+      simp only [List.mem_cons] at hv
+      rcases hv with rfl | hv
+      · cases d with
+        | known n =>
+          simp only [Dim.Admits] at hs
+          have := h.1; simp only [Dim.isNegInt, decide_eq_false_iff_not] at this; omega
+        | sym a => simp only [Dim.Admits] at hs; omega
+        | unknown => exact hu.1 rfl
+      · exact ih l hs.2 hu.2 h.2 v hv
+
+/-- `Shape(start,end)` of a tensor (dims ≥ 0) establishes the invariant, whatever is recorded for it: every entry
+of the operator's output is a dim of the tensor. -/
+theorem shape_value_unnamed_nonneg (sv : Shape) (st : Int) (en : Option Int)
+    (l : List Int) (hn : ∀ v ∈ l, 0 ≤ v) : UnnamedNonneg sv (onnxShapeSlice l st en) := by
+  apply unnamedNonneg_of_nonneg
   intro v hv
-  obtain ⟨d, hd, ha⟩ := key s l hs v hv
-  rw [List.any_eq_false] at h
-  have hneg := h d hd
-  have hunk : d.isUnknown = false := by
-    simp only [hasUnknown] at hu
-    rw [List.any_eq_false] at hu
-    simpa only [Bool.not_eq_true] using hu d hd
-  cases d with
-  | known n =>
-    simp only [Dim.Admits] at ha
-    simp only [decide_eq_true_eq] at hneg
-    omega
-  | sym a => simp only [Dim.Admits] at ha; omega
-  | unknown => simp only [Dim.isUnknown] at hunk; cases hunk
+  rw [onnxShapeSlice_eq_pySlice] at hv
+  simp only [pySlice] at hv
+  exact hn v (List.mem_of_mem_take (List.mem_of_mem_drop hv))
+
+/-- `Gather` on a shape value preserves the invariant. -/
+theorem gather_unnamed_nonneg (s : Shape) (idx : List Int) (r : SymConst) (sv : Shape) (out : List Int)
+    (h : evalGather (some s) (some 0) (some idx) = .ret (some r)) (hsv : r.sym = some sv)
+    (σ : String → Nat) (l : List Int) (hs : Admits σ s l) (hu : UnnamedNonneg s l)
+    (hout : onnxGatherAxis0 l idx = some out) : UnnamedNonneg sv out := by
+  have hl := admits_length hs
+  rw [onnxGatherAxis0_eq] at hout
+  simp only [evalGather, ne_eq, not_true_eq_false, if_false] at h
+  cases hg : seqOpt (idx.map (pyIndex s)) with
+  | none => simp only [hg] at h; cases h
+  | some g =>
+    simp only [hg, Raised.ret.injEq, Option.some.injEq] at h
+    subst h
+    simp only [Option.some.injEq] at hsv
+    subst hsv
+    clear hs
+    induction idx generalizing g out with
+    | nil =>
+      simp only [List.map_nil, seqOpt, Option.some.injEq] at hg hout
+      subst hg; subst hout; simp only [UnnamedNonneg]
+    | cons i is ih =>
+      simp only [List.map_cons] at hg hout
+      cases hi : pyIndex s i with
+      | none => simp only [hi, seqOpt] at hg; cases hg
+      | some d =>
+        cases hj : pyIndex l i with
+        | none => simp only [hj, seqOpt] at hout; cases hout
+        | some v =>
+          simp only [hi, seqOpt, Option.map_eq_some_iff] at hg
+          simp only [hj, seqOpt, Option.map_eq_some_iff] at hout
+          obtain ⟨g', hg', rfl⟩ := hg
+          obtain ⟨o', ho', rfl⟩ := hout
+          simp only [UnnamedNonneg]
+          exact ⟨fun he => unnamedNonneg_pyIndex hl hu i hi hj he, by apply ih <;> assumption⟩
+
+/-- `Concat` (axis 0) of shape values preserves the invariant. -/
+theorem concat_unnamed_nonneg (ss : List Shape) (ls : List (List Int)) (h : ss.length = ls.length)
+    (hlen : ∀ k (hk : k < ss.length), (ss[k]).length = (ls[k]'(h ▸ hk)).length)
+    (hu : ∀ k (hk : k < ss.length), UnnamedNonneg ss[k] (ls[k]'(h ▸ hk))) :
+    UnnamedNonneg ss.flatten ls.flatten := by
+  induction ss generalizing ls with
+  | nil => simp only [List.flatten_nil, UnnamedNonneg]
+  | cons s ss ih =>
+    cases ls with
+    | nil => simp only [List.length_nil, List.length_cons] at h; omega
+    | cons l ls =>
+      simp only [List.flatten_cons]
+      refine unnamedNonneg_append (hlen 0 (by simp only [List.length_cons]; omega)) (hu 0 (by simp only [List.length_cons]; omega))
+        (ih ls (by simpa using h) ?_ ?_)
+      · intro k hk; exact hlen (k + 1) (by simp only [List.length_cons]; omega)
+      · intro k hk; exact hu (k + 1) (by simp only [List.length_cons]; omega)
+
+/-- `add` never records an unnamed entry. -/
+theorem add_no_unnamed (a b : Option Shape) (r : Shape) (h : evalAdd a b = some r) : hasUnknown r = false := by
+  match a, b, h with
+  | some [d0], some [d1], h =>
+    cases d0 <;> cases d1 <;> simp only [evalAdd, Dim.render] at h <;>
+      first
+      | (simp only [Option.some.injEq] at h; subst h; rfl)
+      | (split at h
+         · cases h
+         · simp only [Option.some.injEq] at h; subst h; rfl)
+      | cases h
+
+example : evalAbs (some [.unknown, .known 3, .sym "N"]) = true := by decide
 
 /-- `add` evaluator: the recorded value is truthful for the sum **provided the freshly made name denotes
 that sum** (`hname`; for two ints nothing is needed). -/
@@ -519,7 +586,7 @@ theorem abs_after_add_sound (a b : Shape) (h : evalAbs (evalAdd (some a) (some b
         | known m =>
           simp only [evalAdd, Option.some.injEq] at hr
           subst hr
-          simp only [evalAbs, List.any_cons, List.any_nil, Bool.or_false, Bool.not_eq_true',
+          simp only [evalAbs, List.any_cons, List.any_nil, Bool.or_false, Bool.not_eq_true', Dim.isNegInt,
             decide_eq_false_iff_not] at h
           simp only [Dim.Admits] at ha hb; omega
         | sym s =>
@@ -958,5 +1025,31 @@ example : onnxGatherAxis0 [7, 8, 9] [-1, 0, -3] = some [9, 7, 7] := by decide
 example : onnxGatherAxis0 [7, 8, 9] [3] = none := by decide
 example : evalGather (some [.sym "N", .known 4]) (some 0) (some [-1]) = .ret (some ⟨some [.known 4], some [4]⟩) := by decide
 example : evalGather (some [.sym "N", .known 4]) (some 0) (some [-3]) = .raised := by decide
+
+/-! ## The arithmetic no-op rules and the matcher's scalar test -/
+
+/-- `mul_by_1`, `add_0` (both operand orders), `sub_0`, `div_by_1`: when one of them fires, the matched constant
+has rank 0 (`_match_constant`: `ndim == 0`), so for **every** rank and every dims of the other operand — rank 0,
+symbolic, zero-size included — the node's result had exactly that operand's shape: `Identity(x)` preserves it. -/
+theorem no_op_rule_preserves_shape (op : NoOp) (side nd : Nat) (neutral : Bool)
+    (h : noOpFires op side nd neutral = true) (lx lc : List Int) (hc : lc.length = nd) :
+    broadcast lx lc = some lx ∧ broadcast lc lx = some lx := by
+  simp only [noOpFires, matchScalarShape, Bool.and_eq_true, beq_iff_eq] at h
+  have : lc = [] := List.eq_nil_of_length_eq_zero (by rw [hc]; exact h.1.1)
+  subst this
+  exact ⟨broadcast_nil_right lx, broadcast_nil_left lx⟩
+
+/-- The rank test cannot be weakened to "one element": next to a rank-0 operand a one-element constant of any
+rank `k ≥ 1` gives a result of rank `k`, which `Identity(x)` does not have (the class of seeded change C09-7). -/
+theorem scalar_test_necessary (lc : List Int) (hk : 0 < lc.length) :
+    broadcast [] lc ≠ some [] ∧ broadcast lc [] ≠ some [] := by
+  constructor
+  · intro h; have := broadcast_length h; simp only [List.length_nil, Nat.zero_max] at this; omega
+  · intro h; have := broadcast_length h; simp only [List.length_nil, Nat.max_zero] at this; omega
+
+example : noOpFires .mul1 0 0 true = true := by decide
+example : noOpFires .sub0 0 0 true = false := by decide
+example : noOpFires .add0 1 1 true = false := by decide
+example : broadcast [] [1] = some [1] := by decide
 
 end OV.Props.C09
